@@ -306,7 +306,7 @@ func (c WTVarIntSliceWrapper) Read(data []byte, ptr unsafe.Pointer, wt plenccore
 	var offset, count int
 	for offset < len(data) {
 		_, n := plenccore.ReadVarUint(data[offset:])
-		if n < 0 {
+		if n <= 0 {
 			return 0, fmt.Errorf("corrupt data")
 		}
 		offset += n
